@@ -107,7 +107,7 @@ def gen_case(rng, tier, index):
             # passed over several times while a longer pass is under way)
             "stagger": rng.random() < 0.5,
             # line-level pre-emption inside every sedpack.io source file
-            "line": rng.random() < 0.3,
+            "line": rng.random() < 0.45,
             "pattern": rng.getrandbits(30)}
 
 
@@ -340,7 +340,8 @@ def run_iface(case):
                              trace_files=(os.path.join(
                                  bootstrap.SRC, "sedpack", "io") + os.sep,)
                              if line else (),
-                             line_prob=0.2 if line else 0.0)
+                             line_prob=(0.45 if case["seed"] & 4 else 0.15)
+                             if line else 0.0)
                 if line:
                     probes["conc_line_level_preemption"] += 1
                 with eread.sim_bindings(ds), sc:
